@@ -31,6 +31,16 @@ type c11Case struct {
 	Length    int    `json:"length"`
 	Seed      uint64 `json:"seed"`
 	Net       bool   `json:"net"`
+	// FirstEnd: end of the first plain region when it is not 3 (1 or 2: sectors 1/2, which hold the 3k3y area, are then
+	// encrypted sectors - the area is read as zeros all the same, and the bytes behind it decrypt as everywhere)
+	FirstEnd int `json:"first_end,omitempty"`
+}
+
+func (c c11Case) table() []refcrypt.Region {
+	if c.FirstEnd > 0 {
+		return []refcrypt.Region{{Start: 0, End: uint32(c.FirstEnd)}, {Start: 5, End: 7}}
+	}
+	return c11Table
 }
 
 var (
@@ -73,7 +83,7 @@ func (c c11Case) redkeyDir() string {
 
 func (c c11Case) stored() []byte {
 	data := hx.PRFBytes(c.Seed, 0, c.Length)
-	copy(data, refcrypt.EncodeTable(c11Table))
+	copy(data, refcrypt.EncodeTable(c.table()))
 	put := func(off int, b []byte) {
 		if off < len(data) {
 			copy(data[off:], b)
@@ -100,7 +110,7 @@ func mask3k3y(b []byte) []byte {
 // c11Expected: the harness's own decision table (from the property text). Returns the admissible
 // views; mayFail = opening may legitimately fail.
 func c11Expected(c c11Case, stored []byte) (views [][]byte, labels []string, mayFail bool) {
-	tab := refcrypt.Table{Plain: c11Table, Bytes: 8 + 8*len(c11Table)}
+	tab := refcrypt.Table{Plain: c.table(), Bytes: 8 + 8*len(c.table())}
 	dec := func(key []byte) [][]byte {
 		a, _ := refcrypt.Plaintext(stored, key, tab, false, false)
 		b, _ := refcrypt.Plaintext(stored, key, tab, false, true)
@@ -479,6 +489,15 @@ func c11Product(yield func(c11Case) bool) {
 								c.Net = seed%3 == 0
 								if !yield(c) {
 									return
+								}
+								if wm != "none" && ln >= 0x1070 && depth == 0 && prefix == "" {
+									// the 3k3y area inside encrypted sectors
+									for fe := 1; fe <= 2; fe++ {
+										c.FirstEnd = fe
+										if !yield(c) {
+											return
+										}
+									}
 								}
 							}
 						}
